@@ -344,14 +344,14 @@ def escaper(ctx, cfg, fs):
     rule_local = sw.place[0] if isinstance(sw.place, list) else None
     def mk_model(V):
         def cm(w, c, store):
-            if c.is_(r'escape::Escape as std::cmp::PartialEq>::eq$'):
+            if c.is_(r'escape::Escape as std::cmp::PartialEq>::(eq|ne)$'):
                 ks = []
                 for a in c.args:
                     for r in provenance(b, a, c.bb, 'term', through=None):
                         if r.kind == 'const' and isinstance(r.extra, dict) and r.extra.get('bytes') and len(r.extra['bytes']) == 1:
                             ks.append(r.extra['bytes'][0])
                 if len(ks) == 1 and V is not None:
-                    return ('c', disc[V] == ks[0])
+                    return ('c', (disc[V] == ks[0]) != c.is_(r'::ne$'))
             return None
         cm.first = True
         return cm
